@@ -22,7 +22,7 @@ import (
 
 func init() { Registry["C15"] = c15 }
 
-var c15WitnessAnswers = []string{"valid", "valid-70KiB", "valid-unknown-sig-lines", "same-bytes-as-previous-log", "same-bytes-as-next-log", "missing", "wrong-log-key", "no-witness-sig", "invalid-witness-sig", "corrupted", "other-logs-checkpoint", "witness-error", "two-witness-sigs", "wrong-origin", "foreign-witness-sig-only",
+var c15WitnessAnswers = []string{"valid", "valid-70KiB", "valid-unknown-sig-lines", "valid-witness-line-first", "same-bytes-as-previous-log", "same-bytes-as-next-log", "missing", "wrong-log-key", "no-witness-sig", "invalid-witness-sig", "corrupted", "other-logs-checkpoint", "witness-error", "two-witness-sigs", "wrong-origin", "foreign-witness-sig-only",
 	// a correctly cosigned checkpoint whose tail is malformed: not a note, must not be pushed
 	"tail-lf", "tail-crlf", "tail-space", "tail-nonl"}
 var c15DistAnswers = []string{"200", "404", "500", "conn-error", "redirect-302", "redirect-307", "204", "200-after-body-unread"}
@@ -180,6 +180,12 @@ func c15RunOpt(run *ev.Run, u *uni.U, origins []string, wans, dans []string, war
 			plain := uni.AppendSigLines(u.Sign(text, key.Signer), uni.JunkSigLines(2))
 			_, ws, _ := uni.SplitNote(u.Sign(text, wk.CosigSigner))
 			lg.cp = uni.AppendSigLines(uni.AppendSigLines(plain, ws[0]+"\n"), uni.JunkSigLines(1))
+		case "valid-witness-line-first":
+			// The witness's cosignature line BEFORE the log's line: a valid
+			// note (signature order carries no meaning); the target path
+			// names the WITNESS key all the same (seeded change C15-s13 took
+			// the name from the last verified signature).
+			lg.cp = u.Sign(text, wk.CosigSigner, key.Signer)
 		case "tail-lf", "tail-crlf", "tail-space", "tail-nonl":
 			good := u.Sign(text, key.Signer, wk.CosigSigner)
 			switch lg.wans {
